@@ -66,6 +66,19 @@ class C09(PropBase):
                 ops.append({'op': 'send', 'i': 0, 'id': rid, 'data': gen.rand_payload(rng, n), 'tat': tat})
                 ops.append({'op': 'process', 'i': 0})
                 ops.append({'op': 'stop_sending', 'i': 0})
+        # the same emission / functional rule on an ASYMMETRIC address whose two halves use different modes (prefix on one side only,
+        # 11-bit ids on one side and 29-bit on the other, ...): everything on the transmit side must follow the TX half
+        h2 = gen.rand_half(rng)
+        asym = {'asym': True, 'tx': dict(h['tx']), 'rx': dict(h2['rx'])}
+        ops.append({'op': 'layer', 'i': 1, 'addr': asym, 'params': params})
+        for n in sorted(set([1, cap - 1, cap, cap + 1, 7 - pre, 8 - pre])):
+            if n < 1:
+                continue
+            for tat in (1, 0):
+                rid += 1
+                ops.append({'op': 'send', 'i': 1, 'id': rid, 'data': gen.rand_payload(rng, n), 'tat': tat})
+                ops.append({'op': 'process', 'i': 1})
+                ops.append({'op': 'stop_sending', 'i': 1})
         # a reception with foreign frames interleaved
         prx = b''
         if ref.rx_prefix_len(a):
@@ -132,6 +145,20 @@ class C09(PropBase):
                         out.append(('functional', 'Functional send of %d bytes (multi-frame) gave %s with %s requests queued' % (
                             len(pl), r.result, r.status.get('q'))))
             for e in r.events:
+                if e['k'] == 'tx' and r.layer == 1:
+                    # asymmetric layer: transmit half is the same as `a`'s
+                    c = ref.classify(e['data'][len(ref.tx_prefix(a)):])
+                    pl, tat = payload.get(cur, (b'', 0))
+                    functional = (tat == 1 and c[0] == 'sf')
+                    eid = ref.emitted_id(a, functional=functional)
+                    if e['id'] != eid or e['ext'] != (a['mode'] in ref.MODE_29) or e['data'][:len(ref.tx_prefix(a))] != ref.tx_prefix(a):
+                        out.append(('emit', 'asymmetric address: emitted id %x ext %s prefix %s; the tx half documents id %x prefix %s' % (
+                            e['id'], e['ext'], e['data'][:1].hex(), eid, ref.tx_prefix(a).hex())))
+                    if tat == 1 and c[0] != 'sf':
+                        out.append(('functional', 'asymmetric address: a Functional send produced a %s frame' % c[0]))
+                    continue
+                if e['k'] in ('deliver', 'err') and r.layer == 1:
+                    continue
                 if e['k'] == 'tx':
                     c = ref.classify(e['data'][len(ref.tx_prefix(a)):])
                     pl, tat = payload.get(cur, (b'', 0))
